@@ -266,7 +266,10 @@ def rand_mod(rng, st, h, names=MODS):
         if rng.random() < 0.2:      # dot segments climbing above the root, then a name (the "leading slash put back" branch)
             return st.mod(h, name, "T" if rng.random() < 0.3 else "F", *[enc(pick(rng, ["..", "../x", ".", "./x", "a/../..", "", "x/..", "../../y", "./", "../", "é"]))
                                                                        for _ in range(rng.randint(1, 3))])
-        return st.mod(h, name, "T" if rng.random() < 0.15 else "F", *[T() for _ in range(rng.randint(0, 3))])
+        args = [T() for _ in range(rng.randint(0, 3))]
+        if args and rng.random() < 0.25:      # the same text twice (an implementation that finds "the last argument" by VALUE is wrong here)
+            args = args + [enc(pick(rng, ["x", "y/", ""]))] * rng.randint(0, 1) + [args[0]]
+        return st.mod(h, name, "T" if rng.random() < 0.15 else "F", *args)
     return st.mod(h, name)
 
 
